@@ -175,7 +175,9 @@ class GraphQLError(Exception):
 
         # Compute list of blame nodes.
         if nodes and not isinstance(nodes, list):
-            nodes = [nodes]  # type: ignore
+            # a tuple of nodes is a collection of nodes as well (all child
+            # collections of the AST are tuples)
+            nodes = list(nodes) if isinstance(nodes, tuple) else [nodes]  # type: ignore
         self.nodes = nodes or None  # type: ignore
         node_locations = (
             [node.loc for node in nodes if node.loc] if nodes else []  # type: ignore
